@@ -31,6 +31,7 @@ func runC12(r *Report, p *Program) {
 	gzipStreamRule(h, "R5")
 	c12R7(h)
 	c12R8(h)
+	c12R9(h)
 }
 
 // writes500: the instruction writes a 500 response (DefaultErrorFunc/WriteTextResponse/errorPage with constant 500).
